@@ -590,16 +590,31 @@ func c18Classifiers(w *World, r *Report) {
 					continue
 				}
 				for _, in := range b.Instrs {
-					if !isAction(in) {
-						continue
-					}
-					c := sym.PathCond(l.Header, b, nil)
-					for _, a := range c.atoms() {
-						if isKind(typeOK(a)) {
-							seenKinds[typeOK(a)] = true
+					var conds []*pcF
+					if isAction(in) {
+						conds = append(conds, sym.PathCond(l.Header, b, nil))
+					} else if call, ok := in.(*ssa.Call); ok {
+						// the classification handed to a loop-free helper of the package: its actions,
+						// under the helper's own conditions
+						if h := call.Call.StaticCallee(); h != nil && h.Pkg == f.Pkg && h.Blocks != nil && len(ssaLoops(h)) == 0 {
+							nctx := &symCtx{call: call}
+							for _, hb := range h.Blocks {
+								for _, hin := range hb.Instrs {
+									if isAction(hin) {
+										conds = append(conds, pcAndF(sym.PathCond(l.Header, b, nil), sym.PathCond(h.Blocks[0], hb, nctx)))
+									}
+								}
+							}
 						}
 					}
-					lreq = pcOrF(lreq, c)
+					for _, c := range conds {
+						for _, a := range c.atoms() {
+							if isKind(typeOK(a)) {
+								seenKinds[typeOK(a)] = true
+							}
+						}
+						lreq = pcOrF(lreq, c)
+					}
 				}
 			}
 			// a loop that tells the kinds apart (a later loop that only asks
